@@ -1,6 +1,11 @@
 package router
 
 import (
+	"context"
+	"net/netip"
+	"strings"
+	"time"
+
 	"github.com/IrineSistiana/mosproxy/internal/dnsmsg"
 	"github.com/IrineSistiana/mosproxy/internal/pool"
 	"github.com/IrineSistiana/mosproxy/internal/verifrt"
@@ -100,4 +105,104 @@ func VerifH_C07_FoldingOnlyLetters() {
 	lower := func(c byte) byte { return byte(verifrt.Ite('A' <= c && c <= 'Z', int(c)+32, int(c))) }
 	verifrt.Assert(verifrt.EqBytes(k1, k2) == (lower(c1) == lower(c2)), "same cache entry iff the names are equal ASCII-case-insensitively")
 	verifrt.Assert(q1.Name[2] == lower(c1), "folding changes upper-case ASCII letters only")
+}
+
+// VerifH_C07_CaseVariantsShareEntry: "same name (ASCII-case-insensitive)" end to end through the request handler under
+// a harness-controlled clock: a query for a one-label name c1, then — one second later — one for c2. The second is
+// answered from the cache (no second upstream exchange) exactly when the two octets are the same letter up to case or
+// the same octet; otherwise it is forwarded. Either way each response carries the answer for its own (folded) name.
+func VerifH_C07_CaseVariantsShareEntry() {
+	verifrt.Unwind(200)
+	verifrt.CtxNoExpiry = true
+	base := time.Unix(1700000000, 0)
+	offset := time.Duration(0)
+	verifrt.Redirect("time.Now", func() time.Time { return base.Add(offset) })
+	verifrt.Redirect("time.Until", func(t time.Time) time.Duration { return t.Sub(base.Add(offset)) })
+	verifrt.Redirect("time.Since", func(t time.Time) time.Duration { return base.Add(offset).Sub(t) })
+	up := &vKeyedUpstream{}
+	r := vRouter([]*rule{{upstream: &upstreamWrapper{tag: "up", u: up}}}, true)
+	c1, c2 := verifrt.Byte("c1"), verifrt.Byte("c2")
+	ask := func(id uint16, c byte) *dnsmsg.Msg {
+		m := dnsmsg.NewMsg()
+		m.Header.ID, m.Header.RecursionDesired = id, true
+		q := dnsmsg.NewQuestion()
+		q.Name, q.Type, q.Class = dnsmsg.Name([]byte{1, c}), 1, 1
+		m.Questions = append(m.Questions, q)
+		rc := getRequestContext()
+		r.handleServerReq(m, rc)
+		return rc.Response.Msg
+	}
+	lower := func(c byte) byte { return byte(verifrt.Ite('A' <= c && c <= 'Z', int(c)+32, int(c))) }
+	r1 := ask(1, c1)
+	verifrt.Assert(up.calls == 1 && r1 != nil && len(r1.Answers) == 1, "first query forwarded and answered")
+	offset = time.Second
+	r2 := ask(2, c2)
+	verifrt.Reach("asked-twice")
+	verifrt.Assert(r2 != nil && r2.RCode == 0 && len(r2.Answers) == 1, "second query answered")
+	a2, ok := r2.Answers[0].(*dnsmsg.A)
+	verifrt.Assert(ok && a2.A == vAnswerFor(lower(c2)), "with the answer produced for its own name")
+	if lower(c1) == lower(c2) {
+		verifrt.Reach("same-name")
+		verifrt.Assert(up.calls == 1, "a repeat of the name in any letter case is answered from the cache")
+	} else {
+		verifrt.Assert(up.calls == 2, "a different name is never answered from another name's entry")
+	}
+}
+
+// VerifH_C07_ClientGroups: "the same client group (the label of the configured address range containing the client, or
+// none)". The range file is loaded through the real loader (three ranges, two of them carrying the same label, comment
+// and blank lines); a response is stored for client A and looked up for client B (arbitrary IPv4 addresses, plain or
+// IPv4-mapped), same question, one second later on the harness clock: B is served A's entry exactly when both fall into
+// ranges with the same label or both into none.
+func VerifH_C07_ClientGroups() {
+	verifrt.Unwind(400)
+	verifrt.CtxNoExpiry = true
+	base := time.Unix(1700000000, 0)
+	offset := time.Duration(0)
+	verifrt.Redirect("time.Now", func() time.Time { return base.Add(offset) })
+	verifrt.Redirect("time.Until", func(t time.Time) time.Duration { return t.Sub(base.Add(offset)) })
+	verifrt.Redirect("time.Since", func(t time.Time) time.Duration { return base.Add(offset).Sub(t) })
+	file := "# client groups\n10.0.0.0,10.0.0.255,lan\n\n 192.0.2.16,192.0.2.31,guest # trailing comment\n10.0.2.0,10.0.2.255,lan\n"
+	mk, err := loadIpMarkerFromReader(strings.NewReader(file))
+	verifrt.Assert(err == nil && mk != nil, "the range file loads")
+	r := vRouter(nil, true)
+	r.cache.ipMarker = mk
+	group := func(b []byte) int {
+		v := uint32(b[0])<<24 | uint32(b[1])<<16 | uint32(b[2])<<8 | uint32(b[3])
+		switch {
+		case v >= 0x0a000000 && v <= 0x0a0000ff, v >= 0x0a000200 && v <= 0x0a0002ff:
+			return 1
+		case v >= 0xc0000210 && v <= 0xc000021f:
+			return 2
+		}
+		return 0
+	}
+	addr := func(tag string) (netip.Addr, int) {
+		b := verifrt.BytesN(tag, 4)
+		a := netip.AddrFrom4([4]byte{b[0], b[1], b[2], b[3]})
+		if verifrt.Bool(tag + ".mapped") {
+			a = netip.AddrFrom16(a.As16())
+		}
+		return a, group(b)
+	}
+	a, ga := addr("a")
+	b, gb := addr("b")
+	q := dnsmsg.NewQuestion()
+	q.Name, q.Type, q.Class = dnsmsg.Name([]byte{1, 'q'}), 1, 1
+	resp := dnsmsg.NewMsg()
+	resp.Header.Response = true
+	resp.Questions = append(resp.Questions, q.Copy())
+	rr := dnsmsg.NewA()
+	rr.Name, rr.Type, rr.Class, rr.TTL = dnsmsg.Name([]byte{1, 'q'}), dnsmsg.TypeA, 1, 60
+	resp.Answers = append(resp.Answers, rr)
+	r.cache.Store(q, a, resp)
+	offset = time.Second
+	rc := getRequestContext()
+	rc.RemoteAddr = netip.AddrPortFrom(b, 5353)
+	m, _, _ := r.cache.Get(context.Background(), q, rc)
+	verifrt.Reach("looked-up")
+	verifrt.Assert((m != nil) == (ga == gb), "a cached answer goes to a client of the same group only (same label, or both outside every range)")
+	if ga == gb && ga != 0 {
+		verifrt.Reach("same-label")
+	}
 }
